@@ -108,8 +108,14 @@ def run(run):
         if abs(lons[0]) > 170 or touches_pole:
             run.nontrivial.add((c, n, closed))
     # bulk: explicit subdivision counts at and beyond 2^16 (rings of 3*10^5 .. 10^6 points): exactly 5n (+1) points, same as the model
-    bulk.check(run, bulk.boundary_requests(run), "cell_to_boundary (bulk)")
-    run.rule = ("rings with 65535..70000 (thorough: ..200000) segments per edge on resolution 28/29 and random cells (point count and text hash vs the model); cells: lookups on the antimeridian and at / next to both poles at every resolution, cells 1e-6 .. 9e-3 degrees from a pole on the antimeridian and on the internal frame's branch cut (r = 10..29), all base cells, quintants, random cells to r=29; "
+    # (cells found by lookups on the antimeridian away from the poles, r >= 3: they straddle +-180)
+    am = []
+    for q_, a_ in zip(look, li):
+        t_ = q_.split()
+        if a_.startswith("ok ") and abs(abs(geo.fx(t_[1])) - 180.0) < 1e-3 and abs(geo.fx(t_[2])) < 80.0 and int(t_[3]) >= 3:
+            am.append(int(a_.split()[1]))
+    bulk.check(run, bulk.boundary_requests(run, antimeridian_cells=am), "cell_to_boundary (bulk)")
+    run.rule = ("rings with 65535..70000 (thorough: ..2097152) segments per edge on resolution 28/29 and random cells, and of more than 2^20 points on cells that straddle the antimeridian (point count and text hash vs the model); cells: lookups on the antimeridian and at / next to both poles at every resolution, cells 1e-6 .. 9e-3 degrees from a pole on the antimeridian and on the internal frame's branch cut (r = 10..29), all base cells, quintants, random cells to r=29; "
                 "x closed/open ring x subdivision n in {1, 2|3|7, 5|16|64, default}; checks: length, closure, finite coordinates, latitude range, counter-clockwise (positive spherical area), "
                 "centre inside (independent winding test), 180-degree longitude window unless the cell touches a pole, corner points identical across n; "
                 "non-trivial = distinct (cell, n, closed) cases on the antimeridian or touching a pole")
